@@ -251,7 +251,11 @@ def run_case(ctx, case):
         rng = ctx.rng
         instrs2 = [[m, codec.rand_values(rng, isa.TABLE[flav][m][1])] for m, _ in case["instrs"]]
         for j_, (obj, (m, v)) in enumerate(zip(sub.instructions, instrs2)):
-            codec.edit_in_place(obj, codec.mk_instr(fobj, flav, m, v), named=j_ % 2 == 0)
+            try:
+                codec.edit_in_place(obj, codec.mk_instr(fobj, flav, m, v), named=j_ % 2 == 0)
+            except AssertionError as e:
+                ctx.fail(case, f"{flav}: instruction {j_} ({m}): a named operand accessor does not write the field it reads: {e}")
+                return ctx.case(case, nontrivial)
         ctx.count("reencodings_after_update")
         # same instruction count, operands updated in place (what the NV transpiler and template filling do)
         ref2 = isa.encode_subroutine(flav, case["version"], case["app_id"], instrs2)
